@@ -76,7 +76,7 @@ def enter(impl_id, args, caller):
 class Decl:
     """One generated exported class + instance."""
 
-    def __init__(self, r, case_id):
+    def __init__(self, r, case_id, flip_wants=False, path='/obj', cname_suffix=''):
         self.r = r
         self.case_id = case_id
         self.ifaces = []       # [(name, {member: (sigIn, sigOut)})] in getInterfaces() order (derived first)
@@ -118,7 +118,7 @@ class Decl:
                         if len(counts) != 1:
                             style[m] = 'deco'
                         else:
-                            wants = r.random() < 0.5
+                            wants = (r.random() < 0.5) != flip_wants
                             impl_id = '%s.%s' % (cname, fname)
                             attrs[fname] = make_impl(fname, impl_id, nargs, wants)
                             for n2, ms2 in decl:
@@ -130,7 +130,7 @@ class Decl:
                         if style[m] == 'deco_named' and ('dbus_' + m) not in attrs and not hasattr(base, 'dbus_' + m):
                             # the decorated function for the first declaring interface is itself called dbus_<member>
                             fname = 'dbus_' + m
-                        wants = r.random() < 0.5
+                        wants = (r.random() < 0.5) != flip_wants
                         if base is O.DBusObject and split_bindings and fname.startswith('impl_') and r.random() < 0.5:
                             # the interface is declared here, this member is bound by the derived class
                             moved.append((fname, n, m, nargs, wants))
@@ -146,15 +146,18 @@ class Decl:
             return type(cname, (base,), attrs)
 
         split_bindings = bool(derived_ifs) and r.random() < 0.5
-        Base = build_class('Base%s' % case_id, O.DBusObject, base_ifs)
+        Base = build_class('Base%s%s' % (case_id, cname_suffix), O.DBusObject, base_ifs)
         cls = Base
         if derived_ifs:
-            cls = build_class('Derived%s' % case_id, Base, derived_ifs)
+            cls = build_class('Derived%s%s' % (case_id, cname_suffix), Base, derived_ifs)
         self.split_bindings = split_bindings and bool(moved)
         self.cls = cls
         # getInterfaces() walks the MRO: derived class interfaces first, then base, then DBusObject's own
         self.ifaces = derived_ifs + base_ifs
-        self.path = '/obj'
+        self.path = path
+        # an instance of the BASE class may be in use before the derived class is first instantiated (whatever is
+        # remembered per class on first use must not leak down the hierarchy)
+        self.base_obj = Base('/only/base') if derived_ifs and r.random() < 0.5 else None
         self.obj = cls(self.path)
         # a dbus_ style member whose declaring interfaces were split so that no function got generated
         for n, ms in decl:
@@ -247,12 +250,39 @@ def run_case(ctx, seed, idx):
         d = Decl(r, idx)
         peer = clientfix.Peer().ready()
         conn = peer.proto
+        if d.base_obj is not None:
+            conn.exportObject(d.base_obj)
+            ctx.count('base_class_instance_exported_first')
         conn.exportObject(d.obj)
-        peer.take()                       # InterfacesAdded signal
+        targets = [d]
+        if idx % 3 == 0:
+            # a second class implementing the SAME interfaces and members (same generator stream), each implementation
+            # with the opposite dbusCaller choice, exported beside the first: what is learnt about one implementation
+            # must not be applied to the other
+            d2 = Decl(random.Random('%s/c10/%s' % (seed, idx)), idx, flip_wants=True, path='/sib', cname_suffix='Sib')
+            conn.exportObject(d2.obj)
+            targets.append(d2)
+            if r.random() < 0.5:
+                targets.reverse()
+            ctx.count('sibling_classes')
+        peer.take()                       # InterfacesAdded signals
+        for d in targets:
+            if not drive(ctx, seed, idx, r, d, peer, case):
+                return
+    except RM.CodecError as e:
+        ctx.report('malformed-reply', 'a reply written by the exporter is not a well-formed message: %s' % e,
+                   {'idx': idx}, case)
+    finally:
+        I.DBusInterface.knownInterfaces.clear()
+        I.DBusInterface.knownInterfaces.update(saved)
+
+
+def drive(ctx, seed, idx, r, d, peer, case):
+    if True:
         ncalls = r.choice([1, 2, 3, 5])
         calls = []
         deferreds = {}                    # call index -> (list holder, completion)
-        serial = 100
+        serial = 100 + (1000 if d.path != '/obj' else 0)
         for ci in range(ncalls):
             serial += 1
             token = 'T%d_%d' % (idx, ci)
@@ -263,7 +293,7 @@ def run_case(ctx, seed, idx):
             sig_in = ms[member][0]
             path, iface = d.path, n
             if kind == 'wrong-path':
-                path = r.choice([p for p in PATHS if p != d.path])
+                path = r.choice([p for p in PATHS if p not in ('/obj', d.path)])    # no path some other object is exported at
             elif kind == 'wrong-iface':
                 iface = r.choice(['org.verif.c10.Nope', d.ifaces[0][0] + 'x', 'org.verif.c10.C%s' % idx])
             elif kind == 'wrong-member':
@@ -323,7 +353,7 @@ def run_case(ctx, seed, idx):
         if peer.ep.crashes:
             w['crash'] = repr(peer.ep.crashes[0])
             ctx.report('crash', 'exporting connection crashed with %r while dispatching' % peer.ep.crashes[0], w, case)
-            return
+            return False
         pending = [c for c in calls if c['holder']]
         order = list(range(len(pending)))
         r.shuffle(order)
@@ -340,7 +370,7 @@ def run_case(ctx, seed, idx):
         if peer.ep.crashes:
             w['crash'] = repr(peer.ep.crashes[0])
             ctx.report('crash', 'exporting connection crashed with %r' % peer.ep.crashes[0], w, case)
-            return
+            return False
         judge(ctx, d, calls, msgs, w, case)
         if idx % 4 == 0:
             # the standard Peer.Ping, which the connection answers itself: one empty return to the caller, no user code
@@ -366,12 +396,7 @@ def run_case(ctx, seed, idx):
                 ctx.report('ping-reply', 'Peer.Ping got no reply', pw, case)
             else:
                 ctx.count('pings_ok')
-    except RM.CodecError as e:
-        ctx.report('malformed-reply', 'a reply written by the exporter is not a well-formed message: %s' % e,
-                   {'idx': idx}, case)
-    finally:
-        I.DBusInterface.knownInterfaces.clear()
-        I.DBusInterface.knownInterfaces.update(saved)
+    return True
 
 
 def judge(ctx, d, calls, msgs, w, case):
